@@ -246,12 +246,22 @@ impl Prop for C09 {
     fn assumptions(&self) -> Vec<String> {
         vec!["backup directories are not compared between differently split runs (they legitimately depend on the split)".into()]
     }
+    fn known_signature(&self, case: &C09Case, msg: &str) -> Option<&'static str> {
+        // exactly: some path is a file in one state of the series and a directory (a proper prefix of a file
+        // name) in another, and what fails is the invocation that has to cross that change in one go
+        let states = &case.ws.states;
+        let kind_change = states.iter().any(|a| a.files.keys().any(|p| states.iter().any(|b| b.files.keys().any(|q| q.starts_with(&format!("{}/", p))))));
+        if kind_change && (msg.contains("exits Code(1), expected 0") || msg.contains("Not a directory") || msg.contains("Is a directory")) {
+            return Some("KF-C09-path-changes-between-file-and-directory");
+        }
+        None
+    }
     fn budget(&self, tier: Tier) -> (u32, usize) {
         (tier.pick(600, 10000), 900)
     }
     fn build(&self, ch: &mut Chooser, cx: &mut CaseCtx) -> C09Case {
         let thorough = cx.env.tier == Tier::Thorough;
-        let o = WsGenOpts { fail_chance: 3, max_patches: if thorough { 12 } else { 6 }, max_files: 5, alt_name_chance: 2, ..Default::default() };
+        let o = WsGenOpts { fail_chance: 3, max_patches: if thorough { 12 } else { 6 }, max_files: 5, alt_name_chance: 2, allow_path_kind_change: true, ..Default::default() };
         let ws = gen_ws(ch, cx, &o);
         let n = ws.metas.len();
         let goal = if ch.chance(1, 2) { n } else { ch.range(1, n) };
